@@ -103,6 +103,12 @@ def plan(prop, tier):
     F = seq_families(tier)
     if prop in GENERIC:
         fams = group_small([(n, c, r) for n, (c, r) in F.items()])
+        if prop in ("C04", "C17"):
+            # for_each as a sink of the crate, directly on a puppet source (no tap in between)
+            for mode in ("any", "pull"):
+                g = {"nodes": [scen.puppet(1, 1, mode)], "root": 1}
+                fams.append((f"foreach_raw_{mode}", scen.with_bounds(g, "for_each", sinks=["foreach_raw"], maxData=2,
+                                                                    maxTop=4, maxPull=0, allowFail=True), None))
         if prop == "C17":
             # C17 only: upstreams that greet later than the subscribing call, for every operator (the other
             # properties quantify over late greeters for merge! only)
